@@ -14,7 +14,8 @@ THEOREMS = ["C16_include_flattens", "C16_include_moved", "C16_fuel_monotone", "C
             "C16_line_replacement", "C16_trailing_blanks", "C16_eol_comment", "C16_line_tail_at_top",
             "C16_case_scan", "C16_case_number", "C16_case_parse_partial", "C16_case_source",
             "C16_blank_insertion", "C16_blank_insertion_columns", "C16_layout_link", "C16_blank_lines_assemble",
-            "C16_symbols_equal", "C16_line_replacement_assemble", "C16_comment_block_at_top_assemble"]
+            "C16_symbols_equal", "C16_line_replacement_assemble", "C16_comment_block_at_top_assemble",
+            "C16_comment_block_between_assemble", "C16_comments_inserted_parse"]
 
 
 def instantiate(gen_q):
@@ -68,8 +69,9 @@ PROVED_NOTE = ("proved: an included file becomes a block that code generation fl
                "(types and values, comments included, any positions) assemble to the same blocks, labels and symbol values, or fail "
                "alike - so blank lines, indentation, trailing blanks and blanks inside lines provably leave the OUTPUT unchanged; "
                "a comment block in front of a text too. A comment line BETWEEN two lines is invisible to the output only when the "
-               "second line does not continue the statement of the first (no end-of-line token: `lda #1` / `+2` is one statement) - "
-               "stated under an explicit parse hypothesis (partial). Correspondence-only: that the code computes what the models compute; gaps the "
+               "second line does not continue the statement of the first (no end-of-line token: `lda #1` / `+2` is one statement): "
+               "proved under the static condition that the next token starts a statement no unfinished statement can absorb "
+               "(instruction, directive, label, *=, @=, {{, }, end of text). Correspondence-only: that the code computes what the models compute; gaps the "
                "conservative condition excludes (lines containing a quote or `;` before the gap); included files in the case theorem.")
 MANIFEST = {
     "text": ("Coq theorems on include flattening, comment skipping and case folding in the parser / code-generation models; "
